@@ -85,7 +85,7 @@ def refinement_judge(out, sig, what, errs, vals, exact, scale, C, C2, dr0, detai
 class WertheimThiele(Sub):
     name = 'wertheim-thiele'
     doc = 'PY hard spheres on a dr, dr/2, dr/4 family vs the analytic Wertheim-Thiele solution (contact value, S(k), S(0), c(r))'
-    budget = {'quick': 96, 'thorough': 1600}
+    budget = {'quick': 96, 'thorough': 8000}
     shrink = {'quick': False, 'thorough': False}
 
     def strategy(self, tier):
@@ -190,7 +190,7 @@ def b2_reference(spec, rmax, ks):
 class Dilute(Sub):
     name = 'dilute'
     doc = 'vanishing density: g -> exp(-u/kT) (PY, HNC) or 1-u/kT outside the core (MSA), linear in rho; second_virial -> -2 pi int (g_ref-1) r^2 dr'
-    budget = {'quick': 120, 'thorough': 3200}
+    budget = {'quick': 120, 'thorough': 16000}
     shrink = {'quick': False, 'thorough': False}
 
     def strategy(self, tier):
